@@ -1,6 +1,7 @@
 import Drv.Browser
 import Drv.Diag
 import Drv.Slice
+import Drv.Bonf
 open Lean
 
 def dispatch (model : String) (j : Json) : Except String Json :=
@@ -8,6 +9,7 @@ def dispatch (model : String) (j : Json) : Except String Json :=
   | "browser" => Drv.Browser.run j
   | "diag" => Drv.Diag.run j
   | "slice" => Drv.Slice.run j
+  | "bonf" => Drv.Bonf.run j
   | "diagreads" => Drv.Diag.runReads j
   | _ => throw s!"bad-model {model}"
 
